@@ -186,7 +186,7 @@ Proof.
     + split; [discriminate|]. intros H. exfalso.
       destruct IH as [_ IH2]. assert (X : Some d = None) by (apply IH2; intros d0 I; apply (H d0); auto). discriminate.
     + destruct IH as [IH1 _]. specialize (IH1 eq_refl).
-      destruct o as [m d| | | |]; try (split; [intros _ d0 [A|A]; [discriminate | eapply IH1; eauto] | auto]).
+      destruct o as [m d| | | | | | |]; try (split; [intros _ d0 [A|A]; [discriminate | eapply IH1; eauto] | auto]).
       destruct (bytes_eqb m n) eqn:E2.
       * apply bytes_eqb_eq in E2; subst m. split; [discriminate|]. intros H. exfalso. apply (H d). auto.
       * split; auto. intros _ d0 [A|A]; [|eapply IH1; eauto].
@@ -198,9 +198,62 @@ Proof.
   induction ops as [|o r IH]; simpl; [discriminate|].
   destruct (last_reg r n) eqn:E.
   - intros H; inversion H; subst. auto.
-  - destruct o as [m d0| | | |]; try discriminate.
+  - destruct o as [m d0| | | | | | |]; try discriminate.
     destruct (bytes_eqb m n) eqn:E2; [|discriminate].
     apply bytes_eqb_eq in E2; subst. intros H; inversion H; subst. auto.
+Qed.
+
+(* does operation o (of the same goroutine) give table k a new decoration? *)
+Definition retargets (k : nat) (o : op) : bool :=
+  match o with OReSet k' _ | OSetDec k' _ => Nat.eqb k' k | _ => false end.
+
+Lemma nth_error_set_nth_same {A} k (v : A) l : k < length l -> nth_error (set_nth k v l) k = Some v.
+Proof.
+  revert k; induction l as [|x l IH]; intros [|k] H; simpl in *; try lia; auto. apply IH. lia.
+Qed.
+
+Lemma firstn_S_nth {A} (l : list A) i a : nth_error l i = Some a -> firstn (S i) l = firstn i l ++ [a].
+Proof.
+  revert i; induction l as [|x l IH]; intros [|i] H; simpl in *; try discriminate.
+  - inversion H; reflexivity.
+  - f_equal. apply IH. exact H.
+Qed.
+
+Lemma firstn_le_split {A} (l : list A) : forall p j, p <= j ->
+  exists mid, firstn j l = firstn p l ++ mid
+    /\ forall x, In x mid -> exists m, p <= m < j /\ nth_error l m = Some x.
+Proof.
+  induction l as [|y l IH]; intros p j Le.
+  - exists []. rewrite !firstn_nil. split; [reflexivity | intros x []].
+  - destruct p as [|p].
+    + exists (firstn j (y :: l)). split; [reflexivity|].
+      intros x I. destruct (In_nth_error _ _ I) as [m Hm]. exists m. split.
+      * split; [lia|]. assert (m < length (firstn j (y :: l))) by (apply nth_error_Some; congruence).
+        rewrite firstn_length in H. lia.
+      * revert Hm. generalize (y :: l). clear. intros l. revert l m.
+        induction j as [|j IHj]; intros [|z l] [|m]; simpl; try discriminate; auto.
+    + destruct j as [|j]; [lia|]. destruct (IH p j) as [mid [E Hm]]; [lia|].
+      exists mid. simpl. rewrite E. split; [reflexivity|].
+      intros x I. destruct (Hm x I) as [m [R N]]. exists (S m). split; [lia | exact N].
+Qed.
+
+Lemma map_set_nth {A B} (f : A -> B) k v l : map f (set_nth k v l) = set_nth k (f v) (map f l).
+Proof.
+  revert k; induction l as [|x l IH]; intros [|k]; simpl; auto. rewrite IH. reflexivity.
+Qed.
+
+Lemma set_nth_none {A} k (v : A) l : nth_error l k = None -> set_nth k v l = l.
+Proof.
+  revert k; induction l as [|x l IH]; intros [|k]; simpl; auto; try discriminate.
+  intros H. rewrite IH; auto.
+Qed.
+
+Lemma set_nth_length {A} k (v : A) l : length (set_nth k v l) = length l.
+Proof. revert k; induction l as [|x l IH]; intros [|k]; simpl; auto. Qed.
+
+Lemma nth_error_set_nth_other {A} k j (v : A) l : j <> k -> nth_error (set_nth k v l) j = nth_error l j.
+Proof.
+  revert k j; induction l as [|x l IH]; intros [|k] [|j] H; simpl; auto; try congruence.
 Qed.
 
 Section Hist.
@@ -237,8 +290,7 @@ Section Hist.
   Lemma step_reg st g o :
     g_reg (fst (step body st (g, o))) = match o with OReg n d => register n d (g_reg st) | _ => g_reg st end.
   Proof.
-    destruct o; simpl; auto.
-    destruct (nth_error (g_tabs st g) k); reflexivity.
+    destruct o; simpl; auto; destruct (nth_error (g_tabs st g) k); reflexivity.
   Qed.
 
   Lemma inv_named pre n : named (g_reg (after pre)) n = spec_named init (map snd pre) n.
@@ -246,7 +298,7 @@ Section Hist.
     induction pre as [|[g o] pre IH] using rev_ind.
     - unfold after, spec_named. simpl. apply named_init_named.
     - rewrite after_snoc, step_reg, map_app. unfold spec_named in *. rewrite last_reg_app. simpl.
-      destruct o as [m d| | | |]; simpl; try exact IH.
+      destruct o as [m d| | | | | | |]; simpl; try exact IH.
       rewrite named_register. destruct (bytes_eqb m n); [reflexivity | exact IH].
   Qed.
 
@@ -261,7 +313,7 @@ Section Hist.
         - intros [A|[d A]]; auto. apply in_app_or in A. destruct A as [A|[A|[]]]; eauto.
         - intros [[A|[d A]]|[d A]]; auto; right; exists d; apply in_or_app; simpl; auto. }
       rewrite (X True). clear X.
-      destruct o as [m d| | | |]; try (rewrite IH; split; [auto | intros [A|[d A]]; [auto | discriminate]]).
+      destruct o as [m d| | | | | | |]; try (rewrite IH; split; [auto | intros [A|[d1 A]]; [auto | discriminate]]).
       rewrite keys_register, IH. split.
       + intros [A|A]; [subst; right; eauto | auto].
       + intros [A|[d0 A]]; [auto | inversion A; auto].
@@ -274,26 +326,60 @@ Section Hist.
     - rewrite after_snoc, step_reg. destruct o; auto. apply nodup_register. exact IH.
   Qed.
 
-  Lemma set_decs_app g : forall l1 pre l2,
-    set_decs init g pre (l1 ++ l2) = set_decs init g pre l1 ++ set_decs init g (pre ++ map snd l1) l2.
+  Lemma tab_fold_snoc g pre a :
+    tab_fold init g (pre ++ [a]) = tab_step init g (tab_fold init g pre) a.
+  Proof. unfold tab_fold. rewrite fold_left_app. reflexivity. Qed.
+
+  Lemma tab_fold_fst g pre : fst (tab_fold init g pre) = map snd pre.
   Proof.
-    induction l1 as [|[h o] l1 IH]; intros pre l2; simpl.
-    - rewrite app_nil_r. reflexivity.
-    - rewrite IH. rewrite <- app_assoc. simpl.
-      destruct o; try reflexivity. destruct (Nat.eqb h g); reflexivity.
+    induction pre as [|a pre IH] using rev_ind; [reflexivity|].
+    rewrite tab_fold_snoc, map_app. unfold tab_step. simpl. rewrite IH. reflexivity.
   Qed.
 
-  Lemma inv_tabs pre g : map tt_decor (g_tabs (after pre) g) = set_decs init g [] pre.
+  Lemma tab_decs_snoc g pre a :
+    tab_decs init g (pre ++ [a]) =
+    if Nat.eqb (fst a) g then
+      match snd a with
+      | OSet n => tab_decs init g pre ++ [spec_named init (map snd pre) n]
+      | OReSet k n => set_nth k (spec_named init (map snd pre) n) (tab_decs init g pre)
+      | OSetDec k d => set_nth k d (tab_decs init g pre)
+      | _ => tab_decs init g pre
+      end
+    else tab_decs init g pre.
+  Proof.
+    unfold tab_decs. rewrite tab_fold_snoc. unfold tab_step. simpl. rewrite tab_fold_fst. reflexivity.
+  Qed.
+
+  Lemma inv_tabs pre g : map tt_decor (g_tabs (after pre) g) = tab_decs init g pre.
   Proof.
     induction pre as [|[h o] pre IH] using rev_ind.
     - reflexivity.
-    - rewrite after_snoc, set_decs_app. simpl.
-      destruct o as [m d|m| |m|k]; simpl; try (rewrite app_nil_r; exact IH).
+    - rewrite after_snoc, tab_decs_snoc. simpl fst. simpl snd.
+      destruct o as [m d|m| | |m|k|k m|k d]; simpl.
+      + destruct (Nat.eqb h g); exact IH.
+      + destruct (Nat.eqb h g); exact IH.
+      + destruct (Nat.eqb h g); exact IH.
+      + destruct (Nat.eqb h g); exact IH.
       + unfold upd. destruct (Nat.eqb g h) eqn:E.
         * apply Nat.eqb_eq in E; subst h. rewrite Nat.eqb_refl, map_app, IH. simpl.
           rewrite inv_named. reflexivity.
-        * rewrite Nat.eqb_sym, E, app_nil_r. exact IH.
-      + destruct (nth_error (g_tabs (after pre) h) k); simpl; rewrite app_nil_r; exact IH.
+        * rewrite Nat.eqb_sym, E. exact IH.
+      + destruct (nth_error (g_tabs (after pre) h) k); simpl; destruct (Nat.eqb h g); exact IH.
+      + destruct (nth_error (g_tabs (after pre) h) k) as [t0|] eqn:N; simpl.
+        * unfold upd. destruct (Nat.eqb g h) eqn:E.
+          -- apply Nat.eqb_eq in E; subst h. rewrite Nat.eqb_refl, map_set_nth, IH. simpl.
+             rewrite inv_named. reflexivity.
+          -- rewrite Nat.eqb_sym, E. exact IH.
+        * destruct (Nat.eqb h g) eqn:E; [|exact IH].
+          apply Nat.eqb_eq in E; subst h. rewrite <- IH. symmetry. apply set_nth_none.
+          rewrite nth_error_map, N. reflexivity.
+      + destruct (nth_error (g_tabs (after pre) h) k) as [t0|] eqn:N; simpl.
+        * unfold upd. destruct (Nat.eqb g h) eqn:E.
+          -- apply Nat.eqb_eq in E; subst h. rewrite Nat.eqb_refl, map_set_nth, IH. reflexivity.
+          -- rewrite Nat.eqb_sym, E. exact IH.
+        * destruct (Nat.eqb h g) eqn:E; [|exact IH].
+          apply Nat.eqb_eq in E; subst h. rewrite <- IH. symmetry. apply set_nth_none.
+          rewrite nth_error_map, N. reflexivity.
   Qed.
 End Hist.
 
@@ -335,7 +421,7 @@ Section C17.
     intros n. apply isort_In.
   Qed.
 
-  Lemma reg_names tr i g :
+  Lemma reg_names_obs tr i g :
     NoDup (map fst init) ->
     nth_error tr i = Some (g, ONames) ->
     exists l, nth_error (run body (init_state init) tr) i = Some (VNames l)
@@ -358,33 +444,89 @@ Section C17.
     intros b. reflexivity.
   Qed.
 
+  (* ---- what a table shows later: the decoration given by the last operation
+     that targeted it *)
+  Lemma tab_decs_stable g l1 k d : forall l2,
+    nth_error (tab_decs init g l1) k = Some d ->
+    (forall a, In a l2 -> fst a = g -> retargets k (snd a) = false) ->
+    nth_error (tab_decs init g (l1 ++ l2)) k = Some d.
+  Proof.
+    intros l2 H0. induction l2 as [|a l2 IH] using rev_ind; intros Hq.
+    - rewrite app_nil_r. exact H0.
+    - assert (IH' : nth_error (tab_decs init g (l1 ++ l2)) k = Some d).
+      { apply IH. intros x I. apply Hq. apply in_or_app. auto. }
+      rewrite app_assoc, (tab_decs_snoc init).
+      destruct (Nat.eqb (fst a) g) eqn:E; [|exact IH'].
+      apply Nat.eqb_eq in E.
+      assert (R : retargets k (snd a) = false) by (apply Hq; [apply in_or_app; right; left; reflexivity | exact E]).
+      destruct (snd a) as [m d0|m| | |m|k0|k0 m|k0 d0]; try exact IH'.
+      + rewrite nth_error_app1; [exact IH'|]. apply nth_error_Some. congruence.
+      + simpl in R. apply Nat.eqb_neq in R. rewrite nth_error_set_nth_other by congruence. exact IH'.
+      + simpl in R. apply Nat.eqb_neq in R. rewrite nth_error_set_nth_other by congruence. exact IH'.
+  Qed.
+
+  Lemma render_after tr p j g k d :
+    p <= j ->
+    nth_error (tab_decs init g (firstn p tr)) k = Some d ->
+    (forall m o, p <= m < j -> nth_error tr m = Some (g, o) -> retargets k o = false) ->
+    nth_error tr j = Some (g, ORender k) ->
+    nth_error (run body (init_state init) tr) j = Some (VRender (spec_render body d)).
+  Proof.
+    intros Le H0 Hq Hj. rewrite (run_nth body tr _ _ _ Hj). simpl. fold (after body init (firstn j tr)).
+    destruct (firstn_le_split tr p j Le) as [mid [Ef Hm]].
+    assert (X : nth_error (map tt_decor (g_tabs (after body init (firstn j tr)) g)) k = Some d).
+    { rewrite (inv_tabs body init), Ef. apply tab_decs_stable; [exact H0|].
+      intros [h o] I Eg. simpl in Eg. subst h. destruct (Hm _ I) as [m [Rm Nm]]. simpl. eapply Hq; eauto. }
+    rewrite nth_error_map in X.
+    destruct (nth_error (g_tabs (after body init (firstn j tr)) g) k) as [[d']|]; [|discriminate].
+    simpl in X. inversion X; subst. rewrite text_render_spec. reflexivity.
+  Qed.
+
   (* fails closed, in a history: the failed SetDecorationNamed reports the
-     error and that table never renders again, whatever is registered later *)
+     error and that table renders ("", error) from then on, whatever is
+     registered later, until the goroutine itself sets its decoration again *)
   Lemma closed_hist tr i g n :
     nth_error tr i = Some (g, OSet n) ->
     spec_named init (map snd (firstn i tr)) n = DEmpty ->
     nth_error (run body (init_state init) tr) i = Some (VSet true (Ok ([], true)))
     /\ forall j k, i < j -> nth_error tr j = Some (g, ORender k) ->
-         k = length (set_decs init g [] (firstn i tr)) ->
+         k = length (tab_decs init g (firstn i tr)) ->
+         (forall m o, i < m < j -> nth_error tr m = Some (g, o) -> retargets k o = false) ->
          nth_error (run body (init_state init) tr) j = Some (VRender (Ok ([], true))).
   Proof.
     intros H E. split.
     - rewrite (run_nth body tr _ _ _ H). simpl. fold (after body init (firstn i tr)).
       rewrite (inv_named body init), E. reflexivity.
-    - intros j k Lt Hj Hk. rewrite (run_nth body tr _ _ _ Hj). simpl. fold (after body init (firstn j tr)).
-      assert (X : nth_error (map tt_decor (g_tabs (after body init (firstn j tr)) g)) k = Some DEmpty).
-      { rewrite (inv_tabs body init).
-        destruct (nth_error_split tr i H) as [l1 [l2 [Etr El1]]].
-        assert (F1 : firstn i tr = l1) by (subst tr i; rewrite firstn_app, Nat.sub_diag, firstn_all; simpl; apply app_nil_r).
-        rewrite F1 in *.
-        assert (F2 : exists l3, firstn j tr = l1 ++ (g, OSet n) :: l3).
-        { subst tr. rewrite firstn_app. rewrite El1. rewrite firstn_all2 by lia.
-          destruct (j - i) as [|m] eqn:D; [lia|]. simpl. eexists. reflexivity. }
-        destruct F2 as [l3 F2]. rewrite F2, set_decs_app. simpl. rewrite Nat.eqb_refl.
-        rewrite nth_error_app2 by lia. rewrite Hk, Nat.sub_diag. simpl. rewrite E. reflexivity. }
-      rewrite nth_error_map in X.
-      destruct (nth_error (g_tabs (after body init (firstn j tr)) g) k) as [[d]|]; [|discriminate].
-      simpl in X. inversion X; subst. reflexivity.
+    - intros j k Lt Hj Hk Hq.
+      change (Ok ([], true)) with (spec_render body DEmpty).
+      apply (render_after tr (S i) j g k DEmpty); [lia| |intros m o Rm; apply Hq; lia|exact Hj].
+      rewrite (firstn_S_nth tr i _ H), (tab_decs_snoc init). simpl. rewrite Nat.eqb_refl.
+      rewrite nth_error_app2 by lia. rewrite Hk, Nat.sub_diag, E. reflexivity.
+  Qed.
+
+  (* the same for a table that already exists and may hold anything (a usable
+     decoration set explicitly, the result of an earlier selection by this very
+     name): selecting an unregistered name is an error and the table then
+     refuses to render; selecting a registered one takes the LATEST registration *)
+  Lemma reset_hist tr i g k n :
+    nth_error tr i = Some (g, OReSet k n) ->
+    k < length (tab_decs init g (firstn i tr)) ->
+    let d := spec_named init (map snd (firstn i tr)) n in
+    nth_error (run body (init_state init) tr) i = Some (VSet (dec_is_empty d) (spec_render body d))
+    /\ forall j, i < j -> nth_error tr j = Some (g, ORender k) ->
+         (forall m o, i < m < j -> nth_error tr m = Some (g, o) -> retargets k o = false) ->
+         nth_error (run body (init_state init) tr) j = Some (VRender (spec_render body d)).
+  Proof.
+    intros H Lk d. split.
+    - rewrite (run_nth body tr _ _ _ H). simpl. fold (after body init (firstn i tr)).
+      pose proof (inv_tabs body init (firstn i tr) g) as T.
+      destruct (nth_error (g_tabs (after body init (firstn i tr)) g) k) as [t0|] eqn:N.
+      + simpl. rewrite (inv_named body init), text_render_spec. reflexivity.
+      + exfalso. apply nth_error_None in N. rewrite <- T, map_length in Lk. lia.
+    - intros j Lt Hj Hq.
+      apply (render_after tr (S i) j g k d); [lia| |intros m o Rm; apply Hq; lia|exact Hj].
+      rewrite (firstn_S_nth tr i _ H), (tab_decs_snoc init). simpl. rewrite Nat.eqb_refl.
+      apply nth_error_set_nth_same. exact Lk.
   Qed.
 End C17.
 
@@ -418,9 +560,48 @@ Qed.
 Lemma registeredb_spec init ops n : registeredb init ops n = true <-> registered init ops n.
 Proof.
   unfold registeredb, registered. rewrite orb_true_iff, memb_In, existsb_exists. split.
-  - intros [A|[o [I E]]]; auto. destruct o as [m d| | | |]; try discriminate.
+  - intros [A|[o [I E]]]; auto. destruct o as [m d| | | | | | |]; try discriminate.
     apply bytes_eqb_eq in E; subst. eauto.
   - intros [A|[d A]]; auto. right. exists (OReg n d). split; auto. apply bytes_eqb_refl.
+Qed.
+
+(* ---- the listing *)
+Lemma listing_facts reg :
+  Sorted bytes_le (list_styles reg)
+  /\ (forall p, In p four_names -> In p (list_styles reg))
+  /\ (forall n, In n (map fst reg) -> In n (list_styles reg))
+  /\ (forall n, In n (list_styles reg) -> In n four_names \/ In n (map fst reg)).
+Proof.
+  unfold list_styles. split; [apply isort_sorted|]. repeat split.
+  - intros p I. apply isort_In. apply in_or_app. right. exact I.
+  - intros n I. apply isort_In. apply in_or_app. left. apply isort_In. exact I.
+  - intros n I. apply (proj1 (isort_In _ _)) in I. apply in_app_or in I. destruct I as [I|I]; [right | left; exact I].
+    apply (proj1 (isort_In _ _)) in I. exact I.
+Qed.
+
+Lemma listing_nodup reg :
+  NoDup (map fst reg) -> (forall p, In p four_names -> ~ In p (map fst reg)) -> NoDup (list_styles reg).
+Proof.
+  intros Hn Hd. unfold list_styles. apply isort_NoDup. change (NoDup (names reg ++ four_names)).
+  assert (N4 : NoDup four_names).
+  { apply nodupb_NoDup. vm_compute. reflexivity. }
+  revert Hd. generalize four_names N4. intros four N4' Hd.
+  assert (Nn : NoDup (names reg)) by (apply isort_NoDup; exact Hn).
+  assert (Dj : forall x, In x (names reg) -> ~ In x four).
+  { intros x I J. apply (Hd x J). apply (proj1 (isort_In _ _)) in I. exact I. }
+  revert Nn Dj. generalize (names reg). intros l. induction l as [|x l IH]; intros Nn Dj; simpl; [exact N4'|].
+  inversion Nn; subst. constructor.
+  - intros I. apply in_app_or in I. destruct I as [I|I]; [contradiction|]. apply (Dj x); simpl; auto.
+  - apply IH; auto. intros y Iy. apply Dj. right. exact Iy.
+Qed.
+
+
+Lemma In_reg_names n ops : In n (reg_names ops) <-> exists d, In (OReg n d) ops.
+Proof.
+  unfold reg_names. rewrite in_flat_map. split.
+  - intros [o [I J]]. destruct o as [m d| | | | | | |]; try contradiction.
+    destruct J as [J|[]]. subst. eauto.
+  - intros [d I]. exists (OReg n d). split; [exact I | left; reflexivity].
 Qed.
 
 Section Master.
@@ -437,24 +618,57 @@ Section Master.
     - apply nodupb_NoDup. exact B.
     - apply forallb_forall. intros n I. apply registeredb_spec. apply (inv_keys body init). apply C. exact I.
     - apply forallb_forall. intros n I. apply memb_In. apply C. apply (inv_keys body init). left. exact I.
-    - apply forallb_forall. intros o I. destruct o as [m d| | | |]; auto.
+    - apply forallb_forall. intros o I. destruct o as [m d| | | | | | |]; auto.
       apply memb_In. apply C. apply (inv_keys body init). right. eauto.
+  Qed.
+
+  Lemma model_styles_ok pre :
+    styles_listing_ok (map fst init ++ reg_names (map snd pre)) (list_styles (g_reg (after body init pre))) = true.
+  Proof.
+    set (reg := g_reg (after body init pre)).
+    assert (R : forall n, In n (map fst init ++ reg_names (map snd pre)) <-> In n (map fst reg)).
+    { intros n. unfold reg. rewrite (inv_keys body init). unfold registered.
+      rewrite in_app_iff, In_reg_names. reflexivity. }
+    destruct (listing_facts reg) as [A [B [C D]]].
+    unfold styles_listing_ok.
+    apply andb_true_iff; split; [apply andb_true_iff; split; [apply andb_true_iff; split; [apply andb_true_iff; split|]|]|].
+    - apply sortedb_Sorted. exact A.
+    - apply forallb_forall. intros n I. apply memb_In. apply B. exact I.
+    - apply forallb_forall. intros n I. apply memb_In. apply C. apply R. exact I.
+    - apply forallb_forall. intros n I. apply orb_true_iff. destruct (D n I) as [J|J].
+      + left. apply memb_In. exact J.
+      + right. apply memb_In. apply R. exact J.
+    - destruct (existsb (fun n => memb n four_names) (map fst init ++ reg_names (map snd pre))) eqn:E;
+        [apply orb_true_r|]. apply orb_true_iff. left. apply nodupb_NoDup. apply listing_nodup.
+      + apply (inv_nodup body init). exact init_nodup.
+      + intros q Iq Ik. apply R in Ik.
+        assert (X : existsb (fun n => memb n four_names) (map fst init ++ reg_names (map snd pre)) = true).
+        { apply existsb_exists. exists q. split; [exact Ik | apply memb_In; exact Iq]. }
+        congruence.
   Qed.
 
   Lemma model_event_ok pre a :
     seq_event_ok body init pre a (snd (step body (after body init pre) a)) = true.
   Proof.
     destruct a as [g o]. unfold seq_event_ok. simpl fst. simpl snd.
-    destruct o as [m d|m| |m|k]; simpl.
+    pose proof (inv_tabs body init pre g) as T.
+    assert (X : forall k, nth_error (tab_decs init g pre) k = option_map tt_decor (nth_error (g_tabs (after body init pre) g) k)).
+    { intros k. rewrite <- T. apply nth_error_map. }
+    destruct o as [m d|m| | |m|k|k m|k d]; simpl.
     - reflexivity.
     - rewrite (inv_named body init). apply dec_eqb_refl.
     - apply model_listing_ok.
+    - apply model_styles_ok.
     - rewrite (inv_named body init). rewrite text_render_spec. rewrite rr_eqb_refl.
       destruct (dec_is_empty (spec_named init (map snd pre) m)); reflexivity.
-    - pose proof (inv_tabs body init pre g) as T.
-      assert (X : nth_error (set_decs init g [] pre) k = option_map tt_decor (nth_error (g_tabs (after body init pre) g) k)).
-      { rewrite <- T. apply nth_error_map. }
-      rewrite X. destruct (nth_error (g_tabs (after body init pre) g) k) as [[d]|]; simpl.
+    - rewrite X. destruct (nth_error (g_tabs (after body init pre) g) k) as [[d]|]; simpl.
+      + rewrite text_render_spec. apply rr_eqb_refl.
+      + reflexivity.
+    - rewrite X. destruct (nth_error (g_tabs (after body init pre) g) k) as [[d]|]; simpl.
+      + rewrite (inv_named body init). rewrite text_render_spec. rewrite rr_eqb_refl.
+        destruct (dec_is_empty (spec_named init (map snd pre) m)); reflexivity.
+      + reflexivity.
+    - rewrite X. destruct (nth_error (g_tabs (after body init pre) g) k) as [[d']|]; simpl.
       + rewrite text_render_spec. apply rr_eqb_refl.
       + reflexivity.
   Qed.
@@ -549,7 +763,7 @@ Qed.
 
 Lemma reg_of_some n r d : reg_of n r = Some d -> e_op r = OReg n d.
 Proof.
-  unfold reg_of. destruct (e_op r) as [m d0| | | |]; try discriminate.
+  unfold reg_of. destruct (e_op r) as [m d0| | | | | | |]; try discriminate.
   destruct (bytes_eqb m n) eqn:E; [|discriminate]. apply bytes_eqb_eq in E. subst. intros H; inversion H; reflexivity.
 Qed.
 
@@ -628,34 +842,64 @@ Section Sound.
       * destruct RT2 as [F _]. rewrite Forall_forall in F. apply (F r I1). exact T2.
   Qed.
 
-  Lemma listing_sound H l1 e l2 :
+  Lemma listing_sound_gen extra dupfree H l1 e l2 l :
     Permutation (l1 ++ e :: l2) H -> rt_ok (l1 ++ e :: l2) ->
-    e_op e = ONames ->
-    conc_listing_ok init H (names (g_reg (after body init (ev_trace l1)))) e = true.
+    (forall m d, e_op e <> OReg m d) ->
+    Sorted bytes_le l -> (dupfree = true -> NoDup l) ->
+    (forall n, In n l <-> In n extra \/ registered init (map e_op l1) n) ->
+    conc_listing_ok extra dupfree init H l e = true.
   Proof.
-    intros P RT Eo.
+    intros P RT Eo A B K.
     destruct (rt_ok_app _ _ RT) as [RT1 [RT2 RT12]].
     assert (InH : forall x, In x H <-> In x (l1 ++ e :: l2)).
     { intros x. split; apply Permutation_in; [symmetry|]; exact P. }
-    destruct (names_facts (g_reg (after body init (ev_trace l1))) (inv_nodup body init _ init_nodup)) as [A [B C]].
-    assert (K : forall n, In n (names (g_reg (after body init (ev_trace l1)))) <-> registered init (map e_op l1) n).
-    { intros n. rewrite C, (inv_keys body init), map_snd_ev_trace. reflexivity. }
-    unfold conc_listing_ok. repeat (apply andb_true_iff; split).
+    unfold conc_listing_ok.
+    apply andb_true_iff; split; [apply andb_true_iff; split; [apply andb_true_iff; split;
+      [apply andb_true_iff; split; [apply andb_true_iff; split|]|]|]|].
     - apply sortedb_Sorted. exact A.
-    - apply nodupb_NoDup. exact B.
-    - apply forallb_forall. intros n I. apply K in I. apply orb_true_iff. destruct I as [I|[d I]].
-      + left. apply memb_In. exact I.
-      + right. apply existsb_exists. apply in_map_iff in I. destruct I as [w [Ew Iw]].
+    - destruct dupfree; [|reflexivity]. apply nodupb_NoDup. apply B. reflexivity.
+    - apply forallb_forall. intros n I. apply memb_In. apply K. left. exact I.
+    - apply forallb_forall. intros n I. apply K in I. destruct I as [I|[I|[d I]]].
+      + apply orb_true_iff. left. apply orb_true_iff. left. apply memb_In. exact I.
+      + apply orb_true_iff. left. apply orb_true_iff. right. apply memb_In. exact I.
+      + apply orb_true_iff. right. apply existsb_exists. apply in_map_iff in I. destruct I as [w [Ew Iw]].
         exists w. split; [apply InH; apply in_or_app; auto|].
         rewrite (reg_of_op _ _ _ Ew). apply N.leb_le. apply N.nlt_ge. apply RT12; [exact Iw | left; reflexivity].
-    - apply forallb_forall. intros n I. apply memb_In. apply K. left. exact I.
-    - apply forallb_forall. intros w Iw. destruct (e_op w) as [m d| | | |] eqn:Ew; auto.
+    - apply forallb_forall. intros n I. apply memb_In. apply K. right. left. exact I.
+    - apply forallb_forall. intros w Iw. destruct (e_op w) as [m d| | | | | | |] eqn:Ew; auto.
       destruct (N.ltb (e_e w) (e_s e)) eqn:T; [|reflexivity]. apply N.ltb_lt in T.
-      apply memb_In. apply K. right. exists d.
+      apply memb_In. apply K. right. right. exists d.
       apply InH in Iw. apply in_app_or in Iw. destruct Iw as [I1|[I1|I1]].
       + rewrite <- Ew. apply in_map. exact I1.
-      + subst w. congruence.
+      + subst w. exfalso. exact (Eo _ _ Ew).
       + exfalso. destruct RT2 as [F _]. rewrite Forall_forall in F. apply (F w I1). exact T.
+  Qed.
+
+  Lemma listing_sound H l1 e l2 :
+    Permutation (l1 ++ e :: l2) H -> rt_ok (l1 ++ e :: l2) ->
+    e_op e = ONames ->
+    conc_listing_ok [] true init H (names (g_reg (after body init (ev_trace l1)))) e = true.
+  Proof.
+    intros P RT Eo.
+    destruct (names_facts (g_reg (after body init (ev_trace l1))) (inv_nodup body init _ init_nodup)) as [A [B C]].
+    apply (listing_sound_gen [] true H l1 e l2); auto.
+    - intros m d. rewrite Eo. discriminate.
+    - intros n. rewrite C, (inv_keys body init), map_snd_ev_trace. simpl. tauto.
+  Qed.
+
+  Lemma styles_sound H l1 e l2 :
+    Permutation (l1 ++ e :: l2) H -> rt_ok (l1 ++ e :: l2) ->
+    e_op e = OStyles ->
+    conc_listing_ok four_names false init H (list_styles (g_reg (after body init (ev_trace l1)))) e = true.
+  Proof.
+    intros P RT Eo.
+    destruct (listing_facts (g_reg (after body init (ev_trace l1)))) as [A [B [C D]]].
+    apply (listing_sound_gen four_names false H l1 e l2); auto.
+    - intros m d. rewrite Eo. discriminate.
+    - discriminate.
+    - intros n. rewrite <- map_snd_ev_trace, <- (inv_keys body init). split.
+      + apply D.
+      + intros [I|I]; [apply B | apply C]; exact I.
   Qed.
 
   Lemma legal_obs l1 e l2 :
@@ -684,15 +928,23 @@ Section Sound.
     assert (It : In e tr) by (eapply Permutation_in; [symmetry; exact P | exact Ie]).
     destruct (in_split _ _ It) as [l1 [l2 Etr]]. subst tr.
     pose proof (legal_obs _ _ _ L) as O.
-    unfold event_ok. destruct (e_op e) as [m d|m| |m|k] eqn:Eo.
+    unfold event_ok. destruct (e_op e) as [m d|m| | |m|k|k m|k d] eqn:Eo.
     - rewrite O. simpl. reflexivity.
     - apply (read_sound H l1 e l2 m); auto.
       + unfold reg_of. rewrite Eo. reflexivity.
       + rewrite O. simpl. rewrite (inv_named body init), map_snd_ev_trace. apply dec_eqb_refl.
     - rewrite O. simpl. apply (listing_sound H l1 e l2); auto.
+    - rewrite O. simpl. apply (styles_sound H l1 e l2); auto.
     - apply (read_sound H l1 e l2 m); auto.
       + unfold reg_of. rewrite Eo. reflexivity.
       + rewrite O. simpl. rewrite (inv_named body init), map_snd_ev_trace, text_render_spec.
+        rewrite rr_eqb_refl. destruct (dec_is_empty (spec_named init (map e_op l1) m)); reflexivity.
+    - reflexivity.
+    - rewrite O. simpl.
+      destruct (nth_error (g_tabs (after body init (ev_trace l1)) (e_g e)) k) as [t0|]; [|reflexivity].
+      simpl. apply (read_sound H l1 e l2 m); auto.
+      + unfold reg_of. rewrite Eo. reflexivity.
+      + simpl. rewrite (inv_named body init), map_snd_ev_trace, text_render_spec.
         rewrite rr_eqb_refl. destruct (dec_is_empty (spec_named init (map e_op l1) m)); reflexivity.
     - reflexivity.
   Qed.
@@ -711,7 +963,7 @@ Lemma merge_names body init (progs : list (list (nat * op))) tr :
   exists l, nth_error (run body (init_state init) tr) i = Some (VNames l)
     /\ Sorted bytes_le l /\ NoDup l
     /\ forall n, In n l <-> registered init (map snd (firstn i tr)) n.
-Proof. intros H _ i g. apply reg_names. exact H. Qed.
+Proof. intros H _ i g. apply reg_names_obs. exact H. Qed.
 
 Lemma merge_closed body init (progs : list (list (nat * op))) tr :
   is_merge progs tr -> forall i g n,
@@ -719,6 +971,18 @@ Lemma merge_closed body init (progs : list (list (nat * op))) tr :
   spec_named init (map snd (firstn i tr)) n = DEmpty ->
   nth_error (run body (init_state init) tr) i = Some (VSet true (Ok ([], true)))
   /\ forall j k, i < j -> nth_error tr j = Some (g, ORender k) ->
-       k = length (set_decs init g [] (firstn i tr)) ->
+       k = length (tab_decs init g (firstn i tr)) ->
+       (forall m o, i < m < j -> nth_error tr m = Some (g, o) -> retargets k o = false) ->
        nth_error (run body (init_state init) tr) j = Some (VRender (Ok ([], true))).
 Proof. intros _ i g n. apply closed_hist. Qed.
+
+Lemma merge_reset body init (progs : list (list (nat * op))) tr :
+  is_merge progs tr -> forall i g k n,
+  nth_error tr i = Some (g, OReSet k n) ->
+  k < length (tab_decs init g (firstn i tr)) ->
+  let d := spec_named init (map snd (firstn i tr)) n in
+  nth_error (run body (init_state init) tr) i = Some (VSet (dec_is_empty d) (spec_render body d))
+  /\ forall j, i < j -> nth_error tr j = Some (g, ORender k) ->
+       (forall m o, i < m < j -> nth_error tr m = Some (g, o) -> retargets k o = false) ->
+       nth_error (run body (init_state init) tr) j = Some (VRender (spec_render body d)).
+Proof. intros _ i g k n. apply reset_hist. Qed.
